@@ -21,6 +21,8 @@ func extras() []core.Extra {
 		{Name: "hex-smallscope-exhaustive", Run: hexSmallScope},
 		{Name: "ipv4-roundtrip-sample", Run: ipSample, Tiers: []string{"quick"}},
 		{Name: "ipv4-roundtrip-all-2^32", Run: ipAll, Tiers: []string{"thorough"}},
+		{Name: "parallel-goroutines", Run: parallelInProcess},
+		{Name: "parallel-race-detector", Run: parallelRace},
 	}
 }
 
